@@ -344,7 +344,18 @@ func (g *G) retractTemplate(p *grl.Program, facts *grl.Facts) bool {
 
 // naturalAction returns an action that fails on most fact states (C14 natural action faults).
 func (g *G) naturalAction() *grl.Action {
-	switch g.R.Intn(10) {
+	switch g.R.Intn(12) {
+	case 10: // map keys of the wrong kind
+		switch g.R.Intn(3) {
+		case 0:
+			return &grl.Action{K: "assign", Path: grl.P("F.M").Idx(grl.LitInt(65)), Op: "=", E: grl.LitInt(97)}
+		case 1:
+			return &grl.Action{K: "assign", Path: grl.P("F.MI").Idx(grl.LitFloat(g.R.PickStr2F(1.0, 2.75, 1.5))), Op: "=", E: grl.LitInt(96)}
+		default:
+			return &grl.Action{K: "assign", Path: grl.P("G.MI").Idx(grl.LitStr("2")), Op: "+=", E: grl.LitInt(1)}
+		}
+	case 11:
+		return &grl.Action{K: "eval", E: &grl.Expr{K: "call", Path: grl.P("F"), Fn: "Cost", Args: []*grl.Expr{grl.PathE(grl.P("F.M").Idx(grl.LitStr("nokey")))}}} // a bare call whose argument fails
 	case 8:
 		return &grl.Action{K: "assign", Path: grl.P("F.A").Idx(grl.PathE(grl.P("F.S2"))), Op: "=", E: grl.LitInt(99)} // string selector on a slice
 	case 9:
@@ -373,6 +384,9 @@ func (g *G) naturalAction() *grl.Action {
 func (g *G) applyTemplate(property string, p *grl.Program, facts *grl.Facts) string {
 	switch property {
 	case "C01":
+		if g.R.Chance(1, 8) && g.nanTemplate(p, facts) {
+			return "nan"
+		}
 		if g.R.Chance(1, 4) && g.selectorTemplate(p, facts) {
 			return "selector"
 		}
@@ -380,6 +394,9 @@ func (g *G) applyTemplate(property string, p *grl.Program, facts *grl.Facts) str
 			return "flip"
 		}
 	case "C02":
+		if g.R.Chance(1, 10) && g.nanTemplate(p, facts) {
+			return "nan"
+		}
 		if g.R.Chance(1, 4) && g.selectorTemplate(p, facts) {
 			return "selector"
 		}
@@ -433,6 +450,43 @@ func (g *G) applyTemplate(property string, p *grl.Program, facts *grl.Facts) str
 }
 
 var _ = core.Mix
+
+// nanTemplate: `/` is the real quotient, so 0/0 is NaN and x/0 is an infinity - legal values on which
+// every ordered comparison with NaN is false and only `!=` is true. Rules compare such a quotient in all
+// six ways; one stores it into a float field that another rule then reads.
+func (g *G) nanTemplate(p *grl.Program, facts *grl.Facts) bool {
+	if facts.F == nil || facts.G == nil {
+		return false
+	}
+	facts.G.I32 = 0
+	facts.F.I32 = int32(g.R.PickInt64(0, 0, 0, 3, -2))
+	q := func() *grl.Expr { return grl.Bin("/", grl.PathE(grl.P("F.I32")), grl.PathE(grl.P("G.I32"))) }
+	ops := []string{"<=", ">=", "<", ">", "==", "!="}
+	perm := g.R.Perm(len(ops))
+	n := g.R.Range(2, 4)
+	for i := 0; i < n; i++ {
+		op := ops[perm[i]]
+		name := "Nq" + string(rune('a'+i))
+		var rhs *grl.Expr = grl.LitInt(g.R.PickInt64(1, 0, -1000, 1000))
+		if g.R.Chance(1, 4) {
+			rhs = q()
+		}
+		cond := grl.Bin(op, q(), rhs)
+		if g.R.Chance(1, 4) {
+			cond = grl.Bin(op, rhs, q())
+		}
+		p.Rules = append(p.Rules, &grl.Rule{Name: name, Salience: sal(int64(g.R.Intn(3))), When: cond,
+			Then: []*grl.Action{{K: "assign", Path: grl.P("F.AS").Idx(grl.LitInt(int64(i % 3))), Op: "+=", E: grl.LitStr(op)}, {K: "retract", Name: name}}})
+	}
+	if g.R.Chance(1, 2) {
+		// the quotient travels through a field
+		p.Rules = append(p.Rules,
+			&grl.Rule{Name: "Nst", Salience: sal(9), When: grl.LitBool(true), Then: []*grl.Action{{K: "assign", Path: grl.P("G.F"), Op: "=", E: q()}, {K: "retract", Name: "Nst"}}},
+			&grl.Rule{Name: "Nrd", Salience: sal(1), When: grl.Bin(g.R.PickStr("<=", ">=", "=="), grl.PathE(grl.P("G.F")), grl.LitInt(1)),
+				Then: []*grl.Action{{K: "assign", Path: grl.P("F.AS").Idx(grl.LitInt(2)), Op: "+=", E: grl.LitStr("rd")}, {K: "retract", Name: "Nrd"}}})
+	}
+	return true
+}
 
 
 // convTemplate (C04): one rule whose action list walks through numeric conversions between kinds
